@@ -20,5 +20,6 @@ for d in $dirs; do
   if echo "$out" | grep -q "^VIOLATION property=$id"; then r=CAUGHT; else r=MISSED; fi
   echo "$d $r rc=$rc head=$(git -C /repo log --format=%h -1) $(echo "$out" | grep -E 'quick:' | cut -c1-120)" | tee seeded/$d/recheck.txt
   git -C /repo worktree remove --force $wt
+  rm -f /verif/harness/.bin/*.$(echo -n $wt | sha256sum | cut -c1-8).test
   rm -rf failures/$id
 done
